@@ -678,6 +678,9 @@ impl Prop for C06Walks {
             }
             c06_node(pos, &mut board, &mut g, st, false)?;
             st.count("nodes", 1);
+            if i >= 1 {
+                st.evaluations += 1;
+            }
             if i < ms.len() {
                 chess_move_of(&ms[i])
                     .apply(&mut board)
@@ -943,6 +946,7 @@ impl Prop for C19Positions {
                 continue;
             }
             st.count("moves_rendered", 1);
+            st.evaluations += 1; // every rendered move is a comparison of its own
             let text = em.to_uci();
             let want = notation::uci(&m);
             if text != want {
